@@ -169,9 +169,80 @@ def explore_rmdir(ctx):
         ctx.broke("correspondence", f"remove_filedir: rmdir calls {cases[i][1]} (+{cases[i][2]} outside the root) are not a prefix of the model's targets for {cases[i][0]}")
 
 
+# ---- daemon histories: every mutating call resolves inside a managed root ---------------------------------------------------
+def symlink_scenario(ctx, base, kind, via):
+    """a path that leads out of the node root through a symlink is requested for import (directly or by a scan); if the daemon
+    takes it, the file is replicated to two archive nodes and then cleaned from the node, so that a deletion is attempted"""
+    from vf.harness import daemon, histories, monitors
+    from vf.harness import world as w
+
+    spec = {"groups": [{"name": "gn"}, {"name": "ga1"}, {"name": "ga2"}],
+            "nodes": [{"name": "n", "group": "gn", "stype": "F", "host": "h1"}, {"name": "a1", "group": "ga1", "stype": "A", "host": "h1"}, {"name": "a2", "group": "ga2", "stype": "A", "host": "h1"}],
+            "acqs": [], "files": [], "copies": []}
+    if kind == "dir":
+        spec["unregistered"] = [{"node": "n", "path": "acq/ldir", "kind": "symlink", "target": "@OUT"}]
+        target = "acq/ldir/precious"
+    elif kind == "file":
+        spec["unregistered"] = [{"node": "n", "path": "acq/link", "kind": "symlink", "target": "@OUT/precious"}]
+        target = "acq/link"
+    else:  # a symlink to a directory of another node
+        spec["unregistered"] = [{"node": "a1", "path": "acq/real/f", "tag": 7, "size": 6}, {"node": "n", "path": "acq/other", "kind": "symlink", "target": "@A1/acq/real"}]
+        target = "acq/other/f"
+    spec["ireqs"] = [{"node": "n", "path": target if via == "request" else "acq", "recurse": via == "scan", "register": True}]
+    for u in spec["unregistered"]:
+        if "target" in u:
+            u["target"] = u["target"].replace("@A1", str(base / "sc" / "roots" / "a1"))
+    sim = daemon.Sim(base / "sc", spec)
+    sim.set_tools("both")
+    rp = {"family": "symlink-scenario", "kind": kind, "via": via}
+    mon = monitors.Monitors(sim, ctx, rp)
+    out0 = sim.outside()
+    try:
+        def it(k):
+            for _ in range(k):
+                r = sim.iterate("h1")
+                if r["error"]:
+                    mon.fail("daemon-died", f"the daemon died: {r['error'][:300]}")
+        it(2)
+        taken = [(c.file.acq.name + "/" + c.file.name) for c in w.ArchiveFileCopy.select().where(w.ArchiveFileCopy.node == sim.nodes["n"], w.ArchiveFileCopy.has_file != "N")]
+        for rel in taken:
+            histories.apply_op(sim, mon, ("cli", "file sync", [rel, "--from=n", "--to=ga1"]))
+            histories.apply_op(sim, mon, ("cli", "file sync", [rel, "--from=n", "--to=ga2"]))
+        it(3)
+        for rel in taken:
+            histories.apply_op(sim, mon, ("cli", "file clean", [rel, "--node=n", "--now"]))
+        it(2)
+        if sim.outside() != out0:
+            mon.fail("C06:outside-roots", f"files outside every node root changed: {out0} -> {sim.outside()}")
+        return bool(taken)
+    finally:
+        sim.shutdown()
+
+
+def explore_histories(ctx, n):
+    from vf.harness import histories
+
+    base = ctx.tmp()
+    for kind in ("dir", "file", "othernode"):
+        for via in ("request", "scan"):
+            symlink_scenario(ctx, base, kind, via)
+            ctx.count("symlink-scenario")
+            ctx.distinct_add(("symlink", kind, via))
+    for k in range(n):
+        spec = histories.gen_spec(ctx.rng)
+        ops = histories.gen_ops(ctx.rng, spec, ctx.rng.randint(5, 12))
+        _, mon, final = histories.run_history(ctx, base / "hist", spec, ops, checks=())
+        ctx.count("history")
+        if any(u.get("kind") == "symlink" for u in spec.get("unregistered", [])) or spec.get("ireqs"):
+            ctx.distinct_add(("hist", repr(spec), repr(ops)))
+        if [tuple(x) for x in final["outside"]] != [("precious", "file", __import__("hashlib").md5(b"do not touch").hexdigest())]:
+            ctx.fail("C06:outside-roots", f"the file outside every node root is gone: {final['outside']}", {"family": "history", "spec": spec, "ops": [list(o) for o in ops]})
+
+
 def explore(ctx):
     explore_strings(ctx, 8 if ctx.quick() else 10, 3000 if ctx.quick() else 40000)
     explore_rmdir(ctx)
+    explore_histories(ctx, 25 if ctx.quick() else 1500)
 
 
 def search(ctx):
